@@ -266,7 +266,7 @@ func (w *World) processCommits() {
 		// settling rule, continued: a step that was in flight when the last
 		// replacement landed may still record a position of the old branch at
 		// or above the new head; the chain keeps growing past it.
-		for _, ss := range w.srcs {
+		for _, ss := range w.sources() {
 			need := int64(-1)
 			for _, ps := range w.pairs {
 				// only a position that is not on the canonical chain and not
@@ -630,7 +630,7 @@ func (w *World) onHeal() {
 		// growing until the head is above the highest position any pair ever
 		// recorded: an equal-height replacement only shows through a child
 		// block, and a position above a shortened head can only report "ahead".
-		for _, ss := range w.srcs {
+		for _, ss := range w.sources() {
 			need := int64(-1)
 			for _, ps := range w.pairs {
 				if ps.src == ss && ps.maxEverNum > need {
